@@ -90,6 +90,9 @@ func (p *Program) quantified(x *Exec, ax *Axiom) *Term {
 
 func (p *Program) instantiate(ob *Obligation) {
 	const fuel = 2
+	if ob.NBase == 0 {
+		ob.NBase = len(ob.Hyps)
+	}
 	{
 		x := &Exec{p: p, names: map[string]int{}}
 		used := map[string]bool{}
